@@ -75,6 +75,9 @@ pub enum UiOp {
     /// from-scratch computation (C07)
     Quiesce,
     Burn { k: u32 },
+    /// `update_config` with the configuration the matcher already has: nothing observable may
+    /// change, but the call takes the worker lock (blocking) and writes every per-thread matcher
+    UpdateConfigSame,
     DropNucleo,
     /// event-loop world: wait for a notification (or the watchdog), then tick
     WaitNotifyTick { timeout: u64 },
@@ -431,6 +434,15 @@ impl<'a> Ui<'a> {
         // documented: "Panics if range has a range bound that is larger than the matched item count"
         if expected_panic(|| s.matched_items(0..len + 1).len()).is_ok() {
             soft("C06", "accessor", format!("{what}: matched_items(0..{}) did not panic although there are only {len} matches", len + 1));
+        }
+        // index look-ups answer None or an item for every u32, also the top 32 values no item can
+        // ever be assigned ("Both smaller and larger indices may return None")
+        for far in [u32::MAX, u32::MAX - 31, u32::MAX - 32] {
+            match expected_panic(|| s.get_item(far).is_some()) {
+                Ok(false) => {}
+                Ok(true) => soft("C06", "accessor", format!("{what}: get_item({far}) returned an item")),
+                Err(m) => soft("C06", "accessor", format!("{what}: get_item({far}) panicked: {m}")),
+            }
         }
         if s.get_matched_item(u32::MAX).is_some() {
             soft("C06", "accessor", format!("{what}: get_matched_item(u32::MAX) returned an item"));
@@ -882,6 +894,13 @@ impl<'a> Ui<'a> {
             UiOp::Quiesce => {
                 if !self.sc.event_loop {
                     self.quiesce()
+                }
+            }
+            UiOp::UpdateConfigSame => {
+                let cfg = self.sc.config();
+                if let Some(n) = self.nucleo.as_mut() {
+                    sim::log("ui update_config(same)".to_string());
+                    n.update_config(cfg);
                 }
             }
             UiOp::Burn { k } => {
